@@ -19,7 +19,8 @@ open Gate
 
 partial def parseCons (s : String) : Option Consumer :=
   match s.toList with
-  | 'p' :: r => (String.ofList r).toNat?.map .plain
+  | 'p' :: r => (String.ofList r).toNat?.map (.plain · false)
+  | 'f' :: r => (String.ofList r).toNat?.map (.plain · true)
   | 'r' :: r => (String.ofList r).toInt?.map (.relay · false)
   | 'e' :: r => (String.ofList r).toInt?.map (.relay · true)
   | 'c' :: r =>
@@ -31,7 +32,8 @@ partial def parseCons (s : String) : Option Consumer :=
   | _ => none
 
 def Consumer.enc : Consumer → String
-  | .plain t => "p" ++ toString t
+  | .plain t false => "p" ++ toString t
+  | .plain t true => "f" ++ toString t
   | .relay b false => "r" ++ toString b
   | .relay b true => "e" ++ toString b
   | .chain t n => "c" ++ toString t ++ "." ++ n.enc
